@@ -92,7 +92,7 @@ func c08Conv(root string, e common.CheckError) c08Err {
 }
 
 func runC08(res *lib.Result, tier string, seed int64, args []string) error {
-	nHist := 120
+	nHist := 200
 	if tier == "thorough" {
 		nHist = 1500
 	}
@@ -128,7 +128,7 @@ func runC08(res *lib.Result, tier string, seed int64, args []string) error {
 		if len(files) == 0 {
 			disk["f0.lua"], files["f0.lua"] = 0, c08Variant(0, 0)
 		}
-		if hi%8 == 1 {
+		if hi%16 == 1 {
 			delete(disk, "sub/f2.lua")
 			delete(files, "sub/f2.lua")
 			disk["f0.lua"], files["f0.lua"] = 0, c08Variant(0, 0)
@@ -141,14 +141,14 @@ func runC08(res *lib.Result, tier string, seed int64, args []string) error {
 			disk["f1.lua"], files["f1.lua"] = 0, c08Variant(1, 0)
 			disk["sub/f2.lua"], files["sub/f2.lua"] = 0, c08Variant(2, 0)
 		}
-		if hi%8 == 2 && !k1Hist {
+		if hi%16 == 2 {
 			// f0 defines gf0(a, b), sub/f2 calls it with three arguments; the script rewrites f0 to gf0(a): the
 			// caller's warning keeps its place and changes its message
 			disk["f0.lua"], files["f0.lua"] = 3, c08Variant(0, 3)
 			disk["f1.lua"], files["f1.lua"] = 0, c08Variant(1, 0)
 			disk["sub/f2.lua"], files["sub/f2.lua"] = 4, c08Variant(2, 4)
 		}
-		if hi%8 == 0 {
+		if hi%16 == 0 {
 			// two files named f2.lua (sub/f2.lua and alt/f2.lua), f1 requires "f2": the script deletes sub/f2.lua, the
 			// other candidate remains
 			disk["f0.lua"], files["f0.lua"] = 0, c08Variant(0, 0)
@@ -156,14 +156,14 @@ func runC08(res *lib.Result, tier string, seed int64, args []string) error {
 			disk["sub/f2.lua"], files["sub/f2.lua"] = 0, c08Variant(2, 0)
 			files["alt/f2.lua"] = "local alt = {}\nreturn alt\n"
 		}
-		if hi%8 == 4 {
+		if hi%16 == 4 {
 			// f0 defines the global sub/f2 uses; the script rewrites f0 on disk WHILE IT IS OPEN (a checkout, an external
 			// formatter), the client reloads the document and closes it
 			disk["f0.lua"], files["f0.lua"] = 3, c08Variant(0, 3)
 			disk["f1.lua"], files["f1.lua"] = 0, c08Variant(1, 0)
 			disk["sub/f2.lua"], files["sub/f2.lua"] = 4, c08Variant(2, 4)
 		}
-		if hi%8 == 6 {
+		if hi%16 == 6 {
 			// two files declare the same class; the script moves one declaration down a line
 			disk["f0.lua"], files["f0.lua"] = 13, c08Variant(0, 13)
 			disk["f1.lua"], files["f1.lua"] = 13, c08Variant(1, 13)
@@ -271,11 +271,11 @@ func runC08(res *lib.Result, tier string, seed int64, args []string) error {
 		// file, then another file is edited cleanly and saved (the workspace is clean again at that event)
 		type scripted struct{ i, k, v int }
 		var script []scripted
-		if hi%8 == 1 {
+		if hi%16 == 1 {
 			// a module required by its dotted path (sub.f2) is created while the requiring file shows "not found"
 			script = []scripted{{2, 9, 0}}
 		}
-		if hi%8 == 2 && !k1Hist {
+		if hi%16 == 2 {
 			script = []scripted{{0, 9, 9}}
 		}
 		if k1Hist {
@@ -283,13 +283,13 @@ func runC08(res *lib.Result, tier string, seed int64, args []string) error {
 			// client is shown for f0 (its saved list changed) although f0's buffer still has the syntax error
 			script = []scripted{{0, 0, 0}, {0, 2, 1}, {1, 0, 0}, {1, 2, 3}, {1, 5, 0}}
 		}
-		if hi%8 == 6 {
+		if hi%16 == 6 {
 			script = []scripted{{0, 9, 14}}
 		}
-		if hi%8 == 0 {
+		if hi%16 == 0 {
 			script = []scripted{{2, 9, -2}}
 		}
-		if hi%8 == 4 {
+		if hi%16 == 4 {
 			script = []scripted{{0, 0, 0}, {0, 10, 0}, {0, 2, 0}, {0, 7, 0}}
 		}
 		if hi%8 == 5 {
@@ -307,7 +307,7 @@ func runC08(res *lib.Result, tier string, seed int64, args []string) error {
 			}
 			script = []scripted{{a, 0, 0}, {a, 2, []int{1, 6, 7}[r.Intn(3)]}, {a, 7, 0}, {b, 0, 0}, {b, 2, []int{0, 8}[r.Intn(2)]}, {b, 5, 0}}
 		}
-		if hi%8 == 5 || hi%8 == 1 || hi%8 == 2 || hi%8 == 6 || hi%8 == 0 || hi%8 == 4 {
+		if hi%8 == 5 || hi%16 == 1 || hi%16 == 2 || k1Hist || hi%16 == 6 || hi%16 == 0 || hi%16 == 4 {
 			nEv = r.Intn(2) // the comparison with a fresh server follows (almost) directly
 		} else if hi%3 == 1 {
 			nEv = 1 + r.Intn(4) // short histories: the state right after an event is compared with a fresh server
